@@ -26,7 +26,12 @@ func main() {
 	goarch := flag.String("goarch", "", "GOARCH to analyse")
 	tags := flag.String("tags", "", "build tags")
 	selftest := flag.String("selftest", "", "JSON file with the results of the checker's mutation self-test (thorough tier)")
+	explore := flag.Bool("explore-locks", false, "print lock statistics per struct field (candidate discovery)")
 	flag.Parse()
+	if *explore {
+		exploreLocks(*repo)
+		return
+	}
 	seed, _ := strconv.Atoi(os.Getenv("VERIF_SEED"))
 
 	rule, ok := rules.Registry[*prop]
